@@ -174,6 +174,52 @@ def average_targets():
             Target('gmodel_fit', [f['fit'], f['clone'], f['selected']], A, replace=['gmodel_fit_clone'])]
 
 
+# ------------------------------------------------------------------------------------------------ mean_error / mean_loss
+def accumulate_hook(P, n):
+    """std::accumulate(first, last, init, <lambda variable of this function>) -> nv_accumulate(first, last, init, <its one capture>):
+    the operation must be the function's own lambda (extracted as util_opsum), which captures exactly errors_losses by reference"""
+    from cxx2c import unwrap, Unsupported
+    if n.get('kind') != 'CallExpr' or unwrap(n['inner'][0]).get('referencedDecl', {}).get('name') != 'accumulate':
+        return None
+    args = n['inner'][1:]
+    op = unwrap(args[3]) if len(args) == 4 else {}
+    while op.get('kind') == 'CXXConstructExpr' and len(op.get('inner', [])) == 1:
+        op = unwrap(op['inner'][0])
+    if op.get('kind') != 'DeclRefExpr' or op['referencedDecl'].get('name') != 'opsum':
+        raise Unsupported('std::accumulate whose operation is not the lambda variable opsum')
+    P.note('accumulate(first, last, init, opsum) -> nv_accumulate')
+    return f'nv_accumulate({P.expr(args[0])}, {P.expr(args[1])}, {P.expr(args[2])}, errors_losses)'
+
+
+def util_targets():
+    U = 'specs/C11/util.h'
+    types = [(T2, 'struct nv_tensor2d'), (IX, 'struct nv_ixs')]
+    calls = [(r'^begin\|', 'nv_ix_begin({&0})'), (r'^end\|', 'nv_ix_end({&0})'), (r'^max\|const long &', 'nv_imax({0}, {1})'),
+             (r'^operator\(\)\|.*tensor_vector_storage_t, double, 2', 'nv_t2_get({&0}, {1}, {2})')]
+    members = [(r'^size\|.*(indices_t|tensor_vector_storage_t, long, 1|tensor_base_t<long, 1)', 'nv_ix_size')]
+    kw = dict(types=types, calls=calls, members=members, hooks=[accumulate_hook])
+    out = []
+    for name, row in (('mean_error', 0), ('mean_loss', 1)):
+        fn = lambda: Fn('util_mean', 'src/gboost/util.cpp', name, flt='gboost::' + name, **kw)
+        lam = lambda: Fn('util_opsum', 'src/gboost/util.cpp', name, flt='gboost::' + name, lambda_index=0, captures=True, **kw)
+        out.append(Target(name + '_opsum', [lam()], U, defines=[f'NV_ROW={row}']))
+        out.append(Target(name, [fn(), lam()], U, replace=['util_opsum'], defines=[f'NV_ROW={row}']))
+    return out
+
+
+def store_targets():
+    S = 'specs/C11/store.h'
+    kw = dict(self_struct='struct nv_mlresult', types=[(T2, 'struct nv_tensor2d'), (r'^std::any$', 'struct nv_any'), (r'^nano::ml::stats_t$', 'struct nv_stats'),
+                                                       (r'^nano::ml::value_type$', 'int32_t'),
+                                                       (r'^nano::tensor_t<nano::tensor_(c|m)(map|array)_storage_t, double, 1', 'struct nv_row')],
+              calls=[(r'^store_stats\|', 'nv_store_stats({0}, {1}, self)'), (r'^load_stats\|', 'nv_load_stats({0})'), (r'^move\|', '{0}'),
+                     (r'^operator=\|.*std::any', '({0} = {1})')],
+              members=[(r'^tensor\|.*tensor_vector_storage_t, double, 2.*#1', 'nv_t2_row')])
+    R = 'src/machine/result.cpp'
+    return [Target('mlresult_store', [Fn('mlresult_store', R, 'store', flt='nano::ml::result_t::store', select=NPARAMS(2), **kw)], S),
+            Target('mlresult_stats', [Fn('mlresult_stats', R, 'stats', flt='nano::ml::result_t::stats', select=NPARAMS(1), **kw)], S)]
+
+
 def done_fn():
     return Fn('early_stopping_done', 'src/gboost/early_stopping.cpp', 'done', flt='early_stopping_t::done',
               self_struct='struct nv_early_stopping', types=TYPES,
@@ -186,6 +232,7 @@ def build(tier):
     targets += boost_targets()
     targets += fit_targets(done_fn(), [f() for f in boost_fns()])
     targets += average_targets()
+    targets += util_targets() + store_targets()
     return {
         'targets': targets, 'vcs': [],
         'decided': ['early-stopping monitor transition = specification, for every observation and prior state'],
